@@ -106,6 +106,19 @@ def c07_3(ctx):
                   sample={"prefix": k[0], "format": k[1], "values": g.fmt() if g is not None else None})
     _refcheck(ctx, SINT, "stream_satoshi_int", "si_stream", "compact-size-writer-form")
     _refcheck(ctx, SINT, "parse_satoshi_int", "si_parse", "compact-size-reader")
+    # a first byte handed in by the caller (Tx.parse peeks at it for the segwit marker) is dispatched on like one read here:
+    # the 2 / 4 / 8 byte reads are reachable with `v is not None`
+    pf = ctx.func(SINT, "parse_satoshi_int")
+    pv = [p_ for p_ in pf.params() if p_ != pf.params()[0]]
+    if pv:
+        given = ("not", ("op", "%s is None" % pv[0]))
+        wp = sym.walk(ctx, pf)
+        wide = [e for e in wp.exits if e.kind == "return" and e.value is not None and "struct.unpack(" in norm(e.value)]
+        if not wide:
+            raise Undecided("parse_satoshi_int: no struct.unpack read of a wider form found")
+        from rules.C09 import _sat
+        ctx.check(all(_sat(gi.f_and(e.cond, given)) for e in wide), "reader-dispatches-given-byte", ctx.where(pf),
+                  "parse_satoshi_int reads the 2 / 4 / 8 byte forms only when it read the first byte itself: a prefix byte 0xfd / 0xfe / 0xff handed in by the caller is returned as the count")
     _refcheck(ctx, SSTR, "stream_satoshi_string", "ss_stream", "var-string-writer")
     _refcheck(ctx, SSTR, "parse_satoshi_string", "ss_parse", "var-string-reader")
 
